@@ -6,7 +6,7 @@
    with a non-NOT row and exactly those direct terms, C01-C03 statements on everything derived).
    The theorems are about the byte-level text functions of the Gallina transcription
    (Model/Text.v).  PARTIAL: the file-level statement parse(render F) = F is not yet a theorem. *)
-From HpoV Require Import Gen.Consts Model.Base Model.Group Model.Onto Model.Binary Model.TermId Model.Text Proofs.C09P Proofs.C20P Proofs.C09G Proofs.DistP Proofs.AcyclicP Proofs.AnnotP Proofs.ReloadP Proofs.JaxP.
+From HpoV Require Import Gen.Consts Model.Base Model.Group Model.Onto Model.Binary Model.TermId Model.Text Proofs.C09P Proofs.C20P Proofs.C09G Proofs.DistP Proofs.AcyclicP Proofs.AnnotP Proofs.ReloadP Proofs.JaxP Proofs.ClosureP Proofs.RecordsP Proofs.RoundTripP Proofs.C16M Proofs.JaxDescribesP Model.Script.
 
 Theorem C09_split_inverts_join : forall b ps, ps <> [] -> Forall (no_byte b) ps ->
   split_byte b (join_byte b ps) [] = ps.
@@ -101,6 +101,22 @@ Theorem C09_loaded_ontologies_satisfy_C01_C02_C03 : forall icf tr obo genes hpoa
   load_jax icf tr obo genes hpoa = Ok o -> qgood o /\ acyclic (o_arena o) /\ ann_ok o /\ ic_ok icf o.
 Proof. exact load_jax_ok. Qed.
 
+(* WHAT THE THREE FILES SAY IS WHAT IS LOADED: the version of the header, one term per [Term] stanza
+   as scanned (id, name, obsolete flag, replacement), one direct link per is_a line, and for every
+   record exactly the direct terms its rows name (gene rows: lines after the header of the gene
+   file that parse; disease rows: lines of phenotype.hpoa starting with OMIM / ORPHA that are not
+   NOT rows) — for from_standard and from_standard_transitive alike *)
+Theorem C09_loaded_ontology_is_what_the_files_say : forall icf tr obo genes hpoa o, obo_closed obo ->
+  load_jax icf tr obo genes hpoa = Ok o ->
+  exists ob conns, obo_scan obo = Ok (ob, conns) /\
+    o_version o = o_version ob /\
+    core (ar_terms (o_arena ob)) (ar_terms (o_arena o)) /\
+    (forall c p, parent_rel (o_arena o) c p <-> In (c, p) conns) /\
+    (forall g x, In x (direct KGene o g) <-> gene_row tr genes g x) /\
+    (forall g x, In x (direct KOmim o g) <-> disease_row KOmim hpoa g x) /\
+    (forall g x, In x (direct KOrpha o g) <-> disease_row KOrpha hpoa g x).
+Proof. exact load_jax_describes. Qed.
+
 Print Assumptions C09_split_inverts_join.
 Print Assumptions C09_strip_prefix.
 Print Assumptions C09_key_value_line.
@@ -116,3 +132,17 @@ Print Assumptions C09_hpoa_file.
 Print Assumptions C09_rendered_gene_row.
 Print Assumptions C09_rendered_disease_row.
 Print Assumptions C09_loaded_ontologies_satisfy_C01_C02_C03.
+(* LOADER = BUILDER: an ontology loaded from the JAX files and one built through the Builder API (any
+   script, any call order) that state the same direct facts — same is_a links, same record ids, same
+   direct terms per record — agree, term by term, on parents, children, ancestor caches, all three
+   annotation sets and the information content *)
+Theorem C09_loader_equals_builder : forall icf tr obo genes hpoa o1 s codes o2 t1 t2,
+  obo_closed obo -> load_jax icf tr obo genes hpoa = Ok o1 -> run_script icf s = Ok (codes, Ok o2) ->
+  same_facts o1 o2 ->
+  In t1 (ar_terms (o_arena o1)) -> In t2 (ar_terms (o_arena o2)) -> t_id t2 = t_id t1 ->
+  t_parents t2 = t_parents t1 /\ t_children t2 = t_children t1 /\ t_allp t2 = t_allp t1 /\
+  (forall k, t_annots k t2 = t_annots k t1) /\ t_ic t2 = t_ic t1.
+Proof. exact jax_equals_builder. Qed.
+
+Print Assumptions C09_loaded_ontology_is_what_the_files_say.
+Print Assumptions C09_loader_equals_builder.
